@@ -31,6 +31,11 @@ def run(tier, seed):
             else:
                 args += ["--steps", str(rng.choice([60, 120]))]
             jobs.append(("c%d_%s" % (cpus, variant), args))
+    # one write per coordinator period on stores with odd and even CPU counts: idle neighbouring shards
+    for i, cpus in enumerate([3, 5, 7, 2] if tier == "quick" else [3, 5, 7, 9, 11, 13, 15, 2, 4, 6]):
+        jobs.append(("trickle%d" % cpus, ["--seed", str(rng.randrange(1 << 30)), "--cpus", str(cpus), "--noflush", "1",
+                                           "--settle", str(SETTLE_MS), "--cc", "0", "--keys", "24", "--blocks", "120", "--ttl", "0",
+                                           "--end", "leak", "--maximages", "30", "--steps", "14", "--trickle", "230"]))
     # a device that runs full in the background: writes that could not be allocated wait in their shard;
     # once deletes have made room they must reach the device without any further call
     for i in range(4 if tier == "quick" else 16):
